@@ -25,7 +25,8 @@ def content(ext, m):
         return f"input: q/1.\noutput: out/1.\nassumption: forall X (q(X) -> X != {m}).\n"
     if ext == "po":
         return f"lemma: forall X (out(X) -> X != {m}).\n"
-    return f"out(X) :- q(X), X != {m}.\n"
+    # every program shares one constraint verbatim (obligations about it must be exchanged by a swap, too)
+    return f"out(X) :- q(X), X != {m}.\n:- q(7), q(8).\n"
 
 
 def ext_of(name):
